@@ -40,10 +40,13 @@ def run(d, xexe, sources, tag="xtx", fuel=60000, maxdepth=200):
     cases = [{'id': i, 'src': s, 'input': inp, 'maxsteps': 3000000} for i, s, inp in sources]
     tk = xlib.run_cases(xexe, cases, d, tag=tag + "k", flags="y")
     res = xlib.run_cases(xexe, cases, d, tag=tag + "r")
-    recs = []
+    recs = []; kept = []
     for c, t, r in zip(cases, tk, res):
+        if t.get('status') in ('timeout', 'skipped', 'crash'):
+            continue
         if 'toks' not in t:
             raise vlib.MachineryError("x_case gave no token list for %s" % c['id'])
         recs.append({'id': c['id'], 'toks': t['toks'], 'input': list(c['input']), 'fuel': fuel, 'maxdepth': maxdepth,
                      'obs': {'status': r['status'], 'xv': r.get('xv', 0), 'out': r.get('out', []), 'rd': r.get('rd', 0)}})
-    return recs, res
+        kept.append(r)
+    return recs, kept
